@@ -261,9 +261,10 @@ def run(chk, R, tier, seed):
               "quantized", "non-quantized", "worlds", "disperse",
               "no-disperse"):
         chk.require(c)
-    w = predefined_world({"EUR": 2, "JPY": 0, "BHD": 3})
-    prelude = [{"e": M(["g", "quantity.money:Money"], "register_currency",
-                       ["s", c])} for c in ("EUR", "JPY", "BHD")]
+    w = predefined_world({"EUR": 2, "JPY": 0, "BHD": 3, "XNK": F(1, 20)})
+    from ..cases import currency_steps
+    prelude = currency_steps({"EUR": 2, "JPY": 0, "BHD": 3,
+                              "XNK": F(1, 20)})
     wrap = lambda jd: (lambda obs, rec, case: jd(obs))      # noqa: E731
 
     def on_program(rec, cs):
